@@ -34,7 +34,9 @@ EXPECTED_PROBES = ["probe_dispatch_exact", "probe_dispatch_early", "probe_dispat
                    "probe_cancel_self_in_callback", "probe_cancel_other", "probe_external_cancel_live", "probe_external_cancel_dead",
                    "probe_redefine", "probe_callback_raised", "probe_interval0", "probe_true_return_other_than_1",
                    "probe_callback_name_rebound_to_value", "probe_tick_while_name_holds_a_value",
-                   "probe_callback_function_known_under_another_name_before", "probe_timer_whose_handle_is_not_kept"]
+                   "probe_callback_function_known_under_another_name_before", "probe_timer_whose_handle_is_not_kept",
+                   "probe_computed_interval", "probe_cancel_from_another_thread", "probe_thread_cancel_overlaps_callback",
+                   "line_preemptions_hot"]
 WALL_CAP = {"quick": 300, "thorough": 3600}
 
 STARTS = [0.0, 0.1, 0.3, 1e9 + 0.7, 7.25, 1234.567, 0.7, 2.0 / 3.0, 1e6 + 0.1]
@@ -47,9 +49,9 @@ def setup_worker():
 
 def plan(tier):
     if tier == "quick":
-        return [("timers", {}, 20000, 250)]
+        return [("timers", {}, 20000, 250), ("xthread", {"xthread": 1}, 4000, 250)]
     # 'deep' goes beyond the bounds of the property text: up to three timers and twelve ticks each
-    return [("timers", {}, 400000, 500), ("deep", {"deep": 1}, 150000, 500)]
+    return [("timers", {}, 400000, 500), ("deep", {"deep": 1}, 150000, 500), ("xthread", {"xthread": 1}, 150000, 500)]
 
 
 def _ulp(x):
@@ -59,9 +61,34 @@ def _ulp(x):
 def scenario(ch, cfg):
     from klongpy import KlongInterpreter
     from klongpy.core import KGSym
-    w = World(ch, max_steps=4000, policy=2)
+    xthread = bool(cfg.get("xthread"))
+    import threading as _threading
+    import klongpy.sys_fn_timer as tm
+    if hasattr(tm, "threading"):
+        tm.threading = _threading            # (a worker process runs both configurations: undo the shim of an earlier run)
+    w = World(ch, max_steps=4000, policy=2 if not xthread else None)
     w.now = ch.pick(STARTS, "start")
+    if xthread:
+        # .timerc issued by another thread than the timer's loop (a web handler runs on the io loop, an embedding
+        # application on a thread of its own): source lines of the periodic runner and of cancel() are pre-emption points
+        import klongpy.sys_fn_timer as tm
+        from sim.world import ThreadingShim
+        if hasattr(tm, "threading"):
+            tm.threading = ThreadingShim(w)       # a lock in that module must be one the scheduler knows about
+        w.enable_line_preemption([tm.__file__], 0, hot=("run", "cancel"), hot_budget=2 + ch.draw(3, "hotbudget"))
     loop = SimLoop(w, "kl")
+    if xthread:
+        def handle_starts(h):
+            # the moment the loop begins to run a timer's periodic handle is the moment that tick "starts": a .timerc that
+            # returns while the handle is already running overlaps the tick and may be ordered after it
+            a = getattr(h, "_args", None)
+            if a and isinstance(a[0], tm.KGTimerHandler):
+                for T in timers:
+                    if T["handle"] is a[0]:
+                        T["stopped_when_run_started"] = T["stopped_at"] is not None
+                        T["in_cb"] = True
+                        ext_inflight["events"] += 1
+        loop.on_handle_start = handle_starts
     klong = KlongInterpreter()
     klong[".system"] = {"ioloop": loop, "klongloop": loop, "closeEvent": None}
     res = loop._clock_resolution
@@ -82,13 +109,19 @@ def scenario(ch, cfg):
                 ret = 0
             act = ch.weighted([10, 2, 2 if ntimers > 1 else 0, 1, 1], "act")   # none, cancel self, cancel other, raise, cancel self twice
             script.append({"dur": [0.0, 0.3, 1.0, 2.5][dur] * (interval or 1), "ret": ret, "act": act})
-        timers.append({"id": t, "interval": interval, "script": script, "ticks": [], "arms": [], "timerc": [],
+        # the interval as the program writes it: a literal, or something computed (a numpy integer, a whole real)
+        form = ch.weighted([4, 2, 1, 1], "ivform")
+        ivsrc = [str(interval), f"{interval + 3}-3", f"ivs@{[0, 1, 2, 5].index(interval)}", f"{interval * 2}%2"][form]
+        if form:
+            stats["probe_computed_interval"] += 1
+        timers.append({"id": t, "interval": interval, "ivsrc": ivsrc, "script": script, "ticks": [], "arms": [], "timerc": [],
                        "start": None, "handle": None, "stopped_at": None, "raised_at": None, "version": 1})
     if any(t["interval"] == 0 for t in timers):
         stats["probe_interval0"] += 1
     imax = max([t["interval"] for t in timers] + [1])
     log = []
     violations = []
+    ext_inflight = {"n": 0, "events": 0}     # evaluations in flight on the loop / number of callback starts and ends so far
 
     # ----- Python recorders installed through the public API
     def tick(x, y):           # Klong passes arguments by the parameter names x, y, z
@@ -97,8 +130,10 @@ def scenario(ch, cfg):
         k = len(T["ticks"])
         sc = T["script"][k] if k < len(T["script"]) else {"dur": 0.0, "ret": 0, "act": 0}
         entry = {"k": k, "t": w.now, "version": int(version), "expected_version": T["version"], "sc": sc, "in_window": bool(T.get("unbound")),
-                 "after_stop": T["stopped_at"] is not None, "after_raise": T["raised_at"] is not None}
+                 "after_stop": (T["stopped_at"] is not None) if not xthread else bool(T.get("stopped_when_run_started")),
+                 "after_raise": T["raised_at"] is not None}
         T["ticks"].append(entry)
+        T["in_cb"] = True
         log.append(f"tick {tid}#{k} t={w.now!r} v={int(version)}")
         w.note(log[-1])
         if sc["dur"]:
@@ -122,7 +157,8 @@ def scenario(ch, cfg):
         tid, who, v = int(x), y, z
         T = timers[tid]
         live = T["stopped_at"] is None and T["start"] is not None
-        T["timerc"].append({"t": w.now, "who": str(who), "ret": int(v), "model_live": live, "after_raise": T["raised_at"] is not None})
+        T["timerc"].append({"t": w.now, "who": str(who), "ret": int(v), "model_live": live, "after_raise": T["raised_at"] is not None,
+                            "unjudged": bool(T.get("xc_inflight"))})
         log.append(f"timerc {tid} by {who} -> {int(v)} (model live={live}) t={w.now!r}")
         w.note(log[-1])
         if int(v) == 1 and T["stopped_at"] is None:
@@ -142,6 +178,8 @@ def scenario(ch, cfg):
     def probe(tid, k):
         """runs right after the callback's handle finished: what did the timer arm?"""
         T = timers[tid]
+        T["in_cb"] = False
+        ext_inflight["events"] += 1
         h = T["handle"]
         d = getattr(h, "delegate", None)
         when = getattr(d, "_when", None) if d is not None else None
@@ -180,12 +218,18 @@ def scenario(ch, cfg):
                 at += ch.pick([0.6, 1.6, 3.2], "unbound_for") * (T["interval"] or 1)
             externals.append(("redef", T["id"], at))
 
+
     def do_external(kind, tid):
         T = timers[tid]
         if kind == "cancel":
             live = T["stopped_at"] is None
             stats["probe_external_cancel_live" if live else "probe_external_cancel_dead"] += 1
-            klong(f'rc({tid};"ext";.timerc(th{tid}))')
+            ext_inflight["n"] += 1
+            ext_inflight["events"] += 1
+            try:
+                klong(f'rc({tid};"ext";.timerc(th{tid}))')
+            finally:
+                ext_inflight["n"] -= 1
         elif kind == "unbind":
             T["unbound"] = True
             stats["probe_callback_name_rebound_to_value"] += 1
@@ -208,6 +252,7 @@ def scenario(ch, cfg):
     klong["ffrec"] = ffrec
 
     def boot():
+        klong("ivs::[0 1 2 5]")
         for T in timers:
             if alias_history and T["id"] == 0:
                 # the callback's function object has a past: it was first known as pre0 and served a timer that is gone;
@@ -229,7 +274,12 @@ def scenario(ch, cfg):
             klong('.timer("ff";1;cbff);0')
         for T in timers:
             T["start"] = w.now
-            klong(f'th{T["id"]}::.timer("t{T["id"]}";{T["interval"]};cb{T["id"]})')
+            klong(f'th{T["id"]}::.timer("t{T["id"]}";{T["ivsrc"]};cb{T["id"]})')
+            if not hasattr(klong._context[KGSym(f'th{T["id"]}')], "delegate"):
+                violations.append({"sig": "C15:timer-not-created", "msg": f'.timer("t{T["id"]}";{T["ivsrc"]};cb{T["id"]}) returned '
+                                   f'{klong._context[KGSym("th" + str(T["id"]))]!r} instead of a timer (interval {T["interval"]} written as {T["ivsrc"]})'})
+                T["dead"] = True
+                continue
             T["handle"] = klong._context[KGSym(f'th{T["id"]}')]
             d = T["handle"].delegate
             T["arms"].append({"after_tick": -1, "when": getattr(d, "_when", None), "armed": True, "t": w.now})
@@ -237,6 +287,42 @@ def scenario(ch, cfg):
             loop.call_at(at, do_external, kind, tid)
 
     loop.call_soon(boot)
+    xactors = []
+    if xthread:
+        import klongpy.sys_fn_timer as tm
+
+        def xcancel(tid, at, n):
+            T = timers[tid]
+            w.block_until(lambda: w.now >= at and T["handle"] is not None, "until-its-time")
+            for j in range(n):
+                busy = any(T2.get("in_cb") for T2 in timers) or ext_inflight["n"] > 0
+                ev0 = ext_inflight["events"]
+                live = T["stopped_at"] is None
+                T["xc_inflight"] = True
+                try:
+                    v = tm.eval_sys_fn_cancel_timer(T["handle"])        # what .timerc(th) does, without the interpreter
+                    T["xc_inflight"] = False
+                except Exception as e:   # noqa
+                    violations.append({"sig": f"C15:timerc-raises:{type(e).__name__}", "msg": f"timer {tid}: .timerc issued by another thread at t={w.now!r} "
+                                       f"raised {e!r} instead of answering 0 or 1"})
+                    return
+                busy = busy or any(T2.get("in_cb") for T2 in timers) or ext_inflight["n"] > 0 or ext_inflight["events"] != ev0
+                # a cancellation that overlaps an invocation of the callback: whether the timer counted as live is
+                # not judged (the callback may just be returning false); what it must never do is tick afterwards
+                T["timerc"].append({"t": w.now, "who": "thread", "ret": int(v), "model_live": live, "unjudged": busy,
+                                    "after_raise": T["raised_at"] is not None})
+                stats["probe_cancel_from_another_thread"] += 1
+                if busy:
+                    stats["probe_thread_cancel_overlaps_callback"] += 1
+                log.append(f"timerc {tid} by thread -> {int(v)} (model live={live}, overlaps callback={busy}) t={w.now!r}")
+                w.note(log[-1])
+                if int(v) == 1 and T["stopped_at"] is None:
+                    T["stopped_at"] = ("timerc", len(T["ticks"]) - 1, w.now)
+                w.yield_point("between-cancels")
+        for T in timers:
+            if ch.chance(2, 3, "xcancel"):
+                at = t0 + ch.pick([0.5, 1.0, 2.0, 2.5, 3.0, 4.0, 6.5, 10.0], "xat") * (T["interval"] or 1) / 2
+                xactors.append(w.spawn(f"xc{T['id']}", lambda T=T, at=at, n=1 + ch.draw(2, "xn"): xcancel(T["id"], at, n)))
 
     # ----- dispatch latency policy
     lat = {"n": 0}
@@ -268,6 +354,11 @@ def scenario(ch, cfg):
         exc = ctx.get("exception")
         if isinstance(exc, RuntimeError) and "scripted callback failure" in str(exc):
             return
+        if xthread and isinstance(exc, AttributeError) and "'cancel'" in str(exc):
+            # two cancellations of one timer racing inside KGTimerHandler.cancel (both saw a delegate, one cleared it): the
+            # loser fails on the loop, after its callback had returned false - logged by asyncio, nothing ticks: a diagnostic
+            stats["probe_cancel_race_exception_on_loop"] += 1
+            return
         loop_errors.append(f"{ctx.get('message')}: {exc!r}")
     loop.set_exception_handler(on_loop_exception)
     loop.start()
@@ -281,6 +372,8 @@ def scenario(ch, cfg):
                            f"twice then false: expected 3 invocations, saw {len(ff['ticks'])} at {ff['ticks']} (created at {ff['start']!r}, run ended {w.now!r})"})
     for T in timers:
         tid, i, start = T["id"], T["interval"], T["start"]
+        if T.get("dead"):
+            continue
         if start is None:
             raise HarnessError("timer was never created")
         ticks = T["ticks"]
@@ -297,12 +390,17 @@ def scenario(ch, cfg):
                 break
         # (2) .timerc result == model liveness
         for c in T["timerc"]:
-            if c["after_raise"]:
+            if c["after_raise"] or c.get("unjudged"):
                 continue
             if c["ret"] != (1 if c["model_live"] else 0):
                 violations.append({"sig": f"C15:timerc-returns-{c['ret']}-for-{'live' if c['model_live'] else 'dead'}-timer:{c['who']}",
                                    "msg": f"timer {tid}: .timerc issued by {c['who']} at t={c['t']!r} returned {c['ret']}, model says live={c['model_live']}"})
                 break
+        # (2b) a timer can be stopped by .timerc at most once, however the cancellations overlap
+        wins = [c for c in T["timerc"] if c["ret"] == 1 and not c["after_raise"]]
+        if len(wins) > 1 and T["raised_at"] is None:
+            violations.append({"sig": "C15:two-timerc-report-success-for-one-timer", "msg": f"timer {tid}: .timerc returned 1 {len(wins)} times "
+                               f"(issued by {[c['who'] for c in wins]} at t={[c['t'] for c in wins]}); a timer is live until it is stopped once"})
         # (3) version re-resolution
         for e in ticks:
             if e["in_window"]:
